@@ -316,7 +316,7 @@ type dvRun struct {
 	variant   int
 }
 
-const dvMaxEvents = 2000
+const dvMaxEvents = 6000
 
 func (r *dvRun) log(ev string) {
 	r.res.Events = append(r.res.Events, dvEvent{int64(time.Since(r.start)), ev})
